@@ -14,7 +14,7 @@ use crate::{
     },
     extensions::ResolveInfo,
     parser::types::Selection,
-    resolver_utils::create_value_object,
+    resolver_utils::{create_value_object, merge_fields},
 };
 
 /// Federation service
@@ -372,69 +372,20 @@ fn with_error_path(ctx: &Context<'_>, err: ServerError) -> ServerError {
     }
 }
 
-fn collect_fields<'a>(
-    fields: &mut Vec<BoxFieldFuture<'a>>,
+/// `CollectFields` of the specification: the fields of the selection set, those of
+/// the fragments that apply to the object included, grouped by response key.
+fn group_fields<'a>(
+    groups: &mut IndexMap<&'a str, Vec<&'a Positioned<Field>>>,
     schema: &'a Schema,
     object: &'a Object,
     ctx: &ContextSelectionSet<'a>,
-    parent_value: &'a FieldValue,
 ) -> ServerResult<()> {
     for selection in &ctx.item.node.items {
         match &selection.node {
-            Selection::Field(field) => {
-                if field.node.name.node == "__typename" {
-                    collect_typename_field(fields, object, field);
-                    continue;
-                }
-
-                if object.name == schema.0.env.registry.query_type
-                    && matches!(
-                        ctx.schema_env.registry.introspection_mode,
-                        IntrospectionMode::Enabled | IntrospectionMode::IntrospectionOnly
-                    )
-                    && matches!(
-                        ctx.query_env.introspection_mode,
-                        IntrospectionMode::Enabled | IntrospectionMode::IntrospectionOnly,
-                    )
-                {
-                    // is query root
-                    if field.node.name.node == "__schema" {
-                        collect_schema_field(fields, ctx, field);
-                        continue;
-                    } else if field.node.name.node == "__type" {
-                        collect_type_field(fields, ctx, field);
-                        continue;
-                    } else if ctx.schema_env.registry.enable_federation
-                        && field.node.name.node == "_service"
-                    {
-                        collect_service_field(fields, ctx, field);
-                        continue;
-                    } else if ctx.schema_env.registry.enable_federation
-                        && field.node.name.node == "_entities"
-                        && ctx.schema_env.registry.introspection_mode
-                            != IntrospectionMode::IntrospectionOnly
-                        && ctx.query_env.introspection_mode != IntrospectionMode::IntrospectionOnly
-                    {
-                        collect_entities_field(fields, schema, ctx, parent_value, field);
-                        continue;
-                    }
-                }
-
-                if ctx.schema_env.registry.introspection_mode
-                    == IntrospectionMode::IntrospectionOnly
-                    || ctx.query_env.introspection_mode == IntrospectionMode::IntrospectionOnly
-                {
-                    fields.push(
-                        async move { Ok((field.node.response_key().node.clone(), Value::Null)) }
-                            .boxed(),
-                    );
-                    continue;
-                }
-
-                if let Some(field_def) = object.fields.get(field.node.name.node.as_str()) {
-                    collect_field(fields, schema, object, ctx, parent_value, field_def, field);
-                }
-            }
+            Selection::Field(field) => groups
+                .entry(field.node.response_key().node.as_str())
+                .or_default()
+                .push(field),
             selection => {
                 let (type_condition, selection_set) = match selection {
                     Selection::Field(_) => unreachable!(),
@@ -477,12 +428,11 @@ fn collect_fields<'a>(
                     ),
                 };
                 if type_condition_matched {
-                    collect_fields(
-                        fields,
+                    group_fields(
+                        groups,
                         schema,
                         object,
                         &ctx.with_selection_set(selection_set),
-                        parent_value,
                     )?;
                 }
             }
@@ -490,6 +440,105 @@ fn collect_fields<'a>(
     }
 
     Ok(())
+}
+
+fn collect_fields<'a>(
+    fields: &mut Vec<BoxFieldFuture<'a>>,
+    schema: &'a Schema,
+    object: &'a Object,
+    ctx: &ContextSelectionSet<'a>,
+    parent_value: &'a FieldValue,
+) -> ServerResult<()> {
+    let mut groups = IndexMap::new();
+    group_fields(&mut groups, schema, object, ctx)?;
+
+    for (_, group) in groups {
+        if let [field] = group[..] {
+            collect_one_field(fields, schema, object, ctx, parent_value, field);
+            continue;
+        }
+
+        // Fields with the same response key are executed once, with their
+        // selection sets merged.
+        let mut first = Vec::with_capacity(1);
+        collect_one_field(&mut first, schema, object, ctx, parent_value, group[0]);
+        if first.is_empty() {
+            continue;
+        }
+        let ctx = ctx.clone();
+        fields.push(
+            async move {
+                let field = merge_fields(&group);
+                let mut merged = Vec::with_capacity(1);
+                collect_one_field(&mut merged, schema, object, &ctx, parent_value, &field);
+                match merged.pop() {
+                    Some(future) => future.await,
+                    None => Ok((field.node.response_key().node.clone(), Value::Null)),
+                }
+            }
+            .boxed(),
+        );
+    }
+
+    Ok(())
+}
+
+fn collect_one_field<'a>(
+    fields: &mut Vec<BoxFieldFuture<'a>>,
+    schema: &'a Schema,
+    object: &'a Object,
+    ctx: &ContextSelectionSet<'a>,
+    parent_value: &'a FieldValue,
+    field: &'a Positioned<Field>,
+) {
+    if field.node.name.node == "__typename" {
+        collect_typename_field(fields, object, field);
+        return;
+    }
+
+    if object.name == schema.0.env.registry.query_type
+        && matches!(
+            ctx.schema_env.registry.introspection_mode,
+            IntrospectionMode::Enabled | IntrospectionMode::IntrospectionOnly
+        )
+        && matches!(
+            ctx.query_env.introspection_mode,
+            IntrospectionMode::Enabled | IntrospectionMode::IntrospectionOnly,
+        )
+    {
+        // is query root
+        if field.node.name.node == "__schema" {
+            collect_schema_field(fields, ctx, field);
+            return;
+        } else if field.node.name.node == "__type" {
+            collect_type_field(fields, ctx, field);
+            return;
+        } else if ctx.schema_env.registry.enable_federation && field.node.name.node == "_service"
+        {
+            collect_service_field(fields, ctx, field);
+            return;
+        } else if ctx.schema_env.registry.enable_federation
+            && field.node.name.node == "_entities"
+            && ctx.schema_env.registry.introspection_mode != IntrospectionMode::IntrospectionOnly
+            && ctx.query_env.introspection_mode != IntrospectionMode::IntrospectionOnly
+        {
+            collect_entities_field(fields, schema, ctx, parent_value, field);
+            return;
+        }
+    }
+
+    if ctx.schema_env.registry.introspection_mode == IntrospectionMode::IntrospectionOnly
+        || ctx.query_env.introspection_mode == IntrospectionMode::IntrospectionOnly
+    {
+        fields.push(
+            async move { Ok((field.node.response_key().node.clone(), Value::Null)) }.boxed(),
+        );
+        return;
+    }
+
+    if let Some(field_def) = object.fields.get(field.node.name.node.as_str()) {
+        collect_field(fields, schema, object, ctx, parent_value, field_def, field);
+    }
 }
 
 pub(crate) fn resolve<'a>(
